@@ -1901,6 +1901,13 @@ func RunFrame(frame *py.Frame) (res py.Object, err error) {
 		return nil, py.ExceptionNewf(py.SystemError, "vm: instruction out of range - code most likely finished already")
 	}
 
+	if limiter, ok := frame.Context.(py.RecursionLimiter); ok {
+		if err := limiter.EnterFrame(); err != nil {
+			return nil, err
+		}
+		defer limiter.LeaveFrame()
+	}
+
 	var opcode OpCode
 	var arg int32
 	opcodes := frame.Code.Code
